@@ -5,6 +5,18 @@ V = os.path.dirname(os.path.dirname(os.path.abspath(__file__)))
 props = [json.loads(l) for l in open(os.path.join(V, 'properties.jsonl'))]
 
 CHECKS = {
+ 'C05': dict(level='model_checking', design='3/C05',
+   text='TLC enumerates scenarios (starting tree x series of 1-3 patches over a universe of 17 abstract file patches x configuration) and computes the reference Outcome (Outcome.tla: tree = first k patches, k names recorded, exit 0 iff all applied); a stratified seeded sample (thorough: far larger) is materialised and pushed by the real binary with 1 and 2-4 threads and the full snapshot (paths, bytes, modes, .pc/applied-patches, exit status; crash = violation) compared with the reference.',
+   note='Trusted: TLC, scen.py concretiser (cells <-> bytes bijection), tmpfs workspaces. Adversarial renames (absent source) are skipped. The algorithm-level model (Push.tla) and forced schedules are added by C06.',
+   technique='TLA+ reference model (Outcome.tla) enumerated by TLC, scenarios replayed into the real binary, snapshot compared'),
+ 'C08': dict(level='model_checking', design='3/C08',
+   text='Reference backups (per-patch pre-state of every file-patch entry incl. rename twins, window by --backup-count, modes always/onfail/never) computed by TLC from Outcome.tla for every enumerated scenario x 7 configurations; real runs (1 and 2-4 threads) are compared on the exact set, bytes and modes of .pc/** and on a pop simulation (restore newest first = reference tree before the oldest backed-up patch).',
+   note='Trusted: TLC, scen.py. Zero-length backup = file did not exist or was empty (quilt conflates them).',
+   technique='TLA+ reference model enumerated by TLC, replay into the binary, .pc snapshot + pop simulation compared'),
+ 'C13': dict(level='model_checking', design='3/C13',
+   text='Reference reject set (failing patch only, files with failed hunks, directory exists) from Outcome.tla for every enumerated scenario; real runs compared on the set of *.rej paths and, with an independent reader of the reject format, on the exact failed hunks in order. Failure reasons covered: no match, missing file, create over existing, delete mismatch, misordered hunks.',
+   note='Where C13 is silent (directory created by an earlier patch of the same push) the reject is optional in the reference. Duplicate failing entries for one file are outside the scenario universe so far.',
+   technique='TLA+ reference model enumerated by TLC, replay into the binary, reject files parsed independently'),
  'C11': dict(level='model_checking', design='3/C11',
    text='The parser is modelled at the level of syntactically meaningful lines (PatchText.tla); TLC evaluates the model on every token sequence up to the bound after several prefixes (totality of the case analysis) and emits them with its verdict; each is rendered in several byte spellings, truncated at every byte, byte-mutated, and parsed by the real parse_patch under catch_unwind with a counting allocator; numeric fields up to and beyond 2^64; samples through the binary (patch and series files). Exhaustive at token level, sampled below it.',
    note='Trusted: TLC, the token renderer, the counting allocator. Arbitrary byte strings are only sampled (truncation/mutation). Agreement of accept/reject with the model is reported as a diagnostic.',
